@@ -63,6 +63,13 @@ def getShape : List String := ["rlock", "defer-runlock", "read", "return"]
 def onceShape : List String :=
   ["if-get-hit-return", "lock", "defer-unlock", "if-entries-hit-return", "call", "if-err-return", "store", "return"]
 
+/-- `Freeze`: Starlark freezes a module-level `cache = Cache()` when its module has finished loading, so every target
+body sees a frozen cache. The model has no "frozen" flag: freezing is the identity on the state, `(*cache).Freeze` has an
+empty body and the struct has no field besides the mutex, the entries and the bound method that `once` could consult
+(`Dawn/Ties/Cache.lean` compares both with the source on every run). -/
+def freezeBody : String := "(block)"
+def cacheFields : List String := ["m", "entries", "onceM"]
+
 def upd {α : Type} (f : Nat → α) (i : Nat) (v : α) : Nat → α := fun x => if x = i then v else f x
 
 @[simp] theorem upd_same {α} (f : Nat → α) (i v) : upd f i v i = v := by simp [upd]
@@ -152,5 +159,8 @@ theorem steps_of_run {s s' : State} {sched : List Tid} (h : run s sched = some s
       induction h1 with
       | refl => exact this
       | tail _ st ih2 => exact .tail ih2 st
+
+/-- the effect of `Freeze()` on the cache: none -/
+def freeze (s : State) : State := s
 
 end Dawn.Cache
